@@ -20,6 +20,7 @@ import copy
 import json
 import os
 import random
+import shutil
 import time
 from concurrent.futures import ThreadPoolExecutor
 
@@ -28,7 +29,7 @@ from harness.core import (MachineryError, SPEC, model_check, read_events, requir
 
 SWITCHES = ["SwOrderUser", "SwLoadUser", "SwFreshMeta", "SwTotal", "SwApplyReload", "SwCacheWorld", "SwCreateAtomic", "SwFailKeeps"]
 INVARIANTS = ["Totality", "Persistence", "SaveExact", "RemoveExact", "ReadOnly", "Faithful", "FailedStepKeeps", "Isolation"]
-OPS = ["find", "load", "save", "remove", "check", "init", "reinit", "apply", "search"]
+OPS = ["find", "load", "save", "remove", "check", "init", "reinit", "initbad", "apply", "search"]
 CLAUSES = ["Totality", "SaveExact", "RemoveExact", "ReadOnly", "Persistence", "EditRoundTrip", "Faithful", "FailedStepKeeps", "Isolation"]
 SELF_OFFSET = 10 ** 7
 
@@ -372,6 +373,9 @@ def run(rep, tier):
     shards = [vectors[i::nshard] for i in range(nshard)]
     events, info = execute(wd, shards, lib_spec, timing)
     rep.notes["oracle"] = info
+    rep.notes["prelude_ok_in_every_driver_process"] = all(e.get("prelude_ok", True) for e in events if e["kind"] == "end")
+    for d in wd.glob("root_*"):
+        shutil.rmtree(d, ignore_errors=True)
     st_events, expect = corrupted_sessions(events)
     v = validate(wd, events + st_events)
     timing["trace_validation"] = round(v["wall"], 1)
@@ -459,7 +463,10 @@ def replay(path):
     x = now[0]
     fails = sorted(c for f in v["fails"] if f["tid"] == x["tid"] for c in f["fail"])
     print("now:     ", x.get("label"), "-> HTTP", x.get("status"), x.get("rkind"), x.get("exc"), "; failing clauses", fails)
-    if clause in fails:
+    shutil.rmtree(wd, ignore_errors=True)
+    if fails:
+        if clause not in fails:
+            print("(the recorded clause was %s: the outcome of this request depends on what earlier sessions left in the server process)" % clause)
         print("VIOLATION property=X05 replay=%s" % path)
         return 1
     return 0
